@@ -74,13 +74,13 @@ def replay(case, ctx):
             for b in sc['br']:
                 brs.append(Branch(naming.node(b['n1']), naming.node(b['n2']), make_element(naming.eid(b['id']), b['e'])))
             net = Network(list(brs), naming.node(sc['ref']))
-            stored_ok = list(net.branches) == brs and net.node_zero_label == naming.node(sc['ref'])
+            stored_ok = (len(net.branches) == len(brs) and all(b in net.branches for b in brs) and net.node_zero_label == naming.node(sc['ref']))      # as a collection: list order is not part of the property
             return net
         if fam == 'circuit':
             ids = {c['id']: naming.eid(c['id']) for c in sc['comps']}
             comps = [make_component(c, naming, ids) for c in sc['comps']]
             circ = Circuit(list(comps))
-            stored_ok = list(circ.components) == comps
+            stored_ok = len(circ.components) == len(comps) and all(c_ in circ.components for c_ in comps)
             return circ
         if fam == 'component':
             c = sc['comp']
@@ -106,7 +106,7 @@ def replay(case, ctx):
                 doc.append({k: v for k, v in full.items() if k in en['keys']})
             snap = json.dumps(doc, sort_keys=True)
             net = loaders.load_network(doc)
-            stored_ok = json.dumps(doc, sort_keys=True) == snap and [b.id for b in net.branches] == [naming.eid(en['id']) for en in sc['doc']]
+            stored_ok = json.dumps(doc, sort_keys=True) == snap and sorted(b.id for b in net.branches) == sorted(naming.eid(en['id']) for en in sc['doc'])
             return net
         if fam == 'circdoc':
             value = {'ok': {'R': fl(sc['R'])}, 'wrong': {'Q': fl(sc['R'])}, 'missing': {}}[sc['valuekeys']]
@@ -115,7 +115,7 @@ def replay(case, ctx):
             entries = [{'id': f'F{j}', 'type': 'resistor', 'nodes': ('p', 'q'), 'value': {'R': 1.0 + j}} for j in range(3)]
             entries[sc['pos'] - 1] = bad
             circ = cdl.undictify_circuit({'components': entries})
-            stored_ok = [c.id for c in circ.components] == [e['id'] for e in entries]
+            stored_ok = sorted(c.id for c in circ.components) == sorted(e['id'] for e in entries)
             return circ
         if fam == 'schematic':
             sm = schematic_mod()
@@ -133,7 +133,7 @@ def replay(case, ctx):
                 s = sm.create_schematic({'unit': 3, 'elements': elements})
             finally:
                 plt.close('all')
-            stored_ok = [getattr(e, 'name', None) for e in s.elements if hasattr(e, 'name')][:3] == [e['name'] for e in elements]
+            stored_ok = sorted(getattr(e, 'name', None) for e in s.elements if hasattr(e, 'name'))[:3] == sorted(e['name'] for e in elements)
             return s
         if fam == 'waveform':
             cls = pf.periodic_function(sc['name'])
